@@ -29,6 +29,7 @@ def run(prog, chk):
         "each split pair is stored into exactly one bucket: one append per yielded part, merged buckets are re-assigned with break after the first match, all four base/mark combinations are kept exactly once (R05.8)",
         "kerning lookups are registered, per OpenType tag, for exactly the languages the feature file declares for that tag (flat per-tag table over all declared language systems, default ['dflt']) (R05.9, shared with C20)",
     ]
+    chk.decided += ["every kerning class is defined under the unique name makeFeaClassName computed for it, unchanged (R05.10)"]
     chk.not_decided += ["what a shaper applies", "that common and script lookups never both hold the same glyph pair", "script / bidi classification of glyphs", "the kerning values themselves"]
     chk.guard(r051, prog, chk)
     chk.guard(r052, prog, chk)
@@ -40,6 +41,7 @@ def run(prog, chk):
     chk.guard(r058, prog, chk)
     from .c20 import r202
     chk.guard(r202, prog, chk, "R05.9")
+    chk.guard(r0510, prog, chk)
 
 
 # ----------------------------------------------------------------------------- R05.1
@@ -621,7 +623,39 @@ def r058(prog, chk):
     chk.minimum("R05.8", 7)
 
 
+
+# ----------------------------------------------------------------------------- R05.10
+def r0510(prog, chk):
+    """Every kerning class is defined under the unique name makeFeaClassName computed for it: the name goes from there to
+    the GlyphClassDefinition unchanged (the uniqueness check, the registry of taken names and the class table are all
+    keyed by that name; a name edited afterwards can coincide with another class, and feaLib lets the later definition win)."""
+    ix = prog.ix
+    mk = ix.get_func("ufo2ft.featureWriters.ast:makeGlyphClassDefinition")
+    defs = [c for c in A.body_nodes(mk.node) if isinstance(c, ast.Call) and A.callee_name(c) == "GlyphClassDefinition"]
+    need(len(defs) == 1 and defs[0].args, f"cannot interpret {mk.short}")
+    a0 = defs[0].args[0]
+    p0 = mk.params()[0]
+    ok = isinstance(a0, ast.Name) and a0.id == p0 and all(d.kind == "param" for d in prog.reaching(mk, a0.id, a0))
+    chk.ob("R05.10", f"{mk.short}|the class is defined under the name it was given, unchanged", ok, where(mk, defs[0]), detail=T(defs[0], 70),
+           message=f"{mk.short}: the class name is modified between the uniqueness check and the definition (`{T(a0, 40)}` is not the unmodified parameter): two classes can end up "
+                   f"under one name and the later definition silently replaces the earlier one")
+    n = 0
+    for fi in ix.functions.values():
+        if not fi.module.name.startswith("ufo2ft.featureWriters") or fi is mk:
+            continue
+        for c in calls_named(fi, "makeGlyphClassDefinition"):
+            n += 1
+            nm = c.args[0] if c.args else None
+            okn, bad = every_origin(prog, fi, nm, lambda e, f_: isinstance(e, ast.Call) and A.callee_name(e) == "makeFeaClassName", allow_const=False) if nm is not None else (False, [])
+            chk.ob("R05.10", f"{fi.short}|{A.keytext(fi.node, c)}|defined under the name makeFeaClassName returned", okn, where(fi, c), detail=T(c, 70),
+                   message=f"{fi.short}: a glyph class is defined under a name that is not (only) the result of makeFeaClassName ({[str(b)[:40] for b in bad][:2]})")
+    need(n >= 2, "makeGlyphClassDefinition call sites not found")
+    chk.minimum("R05.10", 3)
+
+
 MUTANTS = [
+    M("class names truncated after the uniqueness check (seeded C05g)", "ufo2ft/featureWriters/ast.py", "makeGlyphClassDefinition",
+      "classDef = ast.GlyphClassDefinition(className, glyphClass)", "className = className[:63]\nclassDef = ast.GlyphClassDefinition(className, glyphClass)", rule="R05.10"),
     M("every zero-valued pair dropped by a truthiness test", "ufo2ft/featureWriters/kernFeatureWriter.py", "KernFeatureWriter.getKerningPairs",
       "firstIsClass and secondIsClass and value == 0", "not value", rule="R05.5"),
     M("bucket merging done in a single pass (seeded C05a)", "ufo2ft/featureWriters/kernFeatureWriter.py", "mergeScripts",
